@@ -13,17 +13,19 @@ concurrent writers; `Actor.runGroups` = the schedule of the real loop), the hist
 every I/O call (`World.storeAt t`) and `crashImage` (every file cut to what a successful fsync
 covered).  `durable crc st` = what `recover_all_entries` returns from the crash image of `st`.
 
-The model has a flag `syncBeforeDrop` (first argument of `Actor.run`):
-* `false` = the pinned tree.  `DurableSurvives false` is FALSE: `rotation_counterexample`
-  (a batch that straddles a rotation: `rotate()` drops the writer unsynced, `sync()` covers only
-  the current writer) and `append_error_counterexample` (an append error drops the writer, then
-  `sync()` returns `Ok` without syncing anything and the EARLIER entry of the batch is acked).
-  Proved instead: `durable_survives_partial` under the decidable hypothesis `Actor.quiet` (no
-  writer is dropped between two group fsyncs).
-* `true` = the repaired tree (`rotate()` fsyncs the old writer before dropping it; a failed
-  closing fsync or a failed append poisons the next `sync()`): `durable_survives` is proved at
-  full strength — all write sequences, batch choices, rotation thresholds, fault oracles and
-  crash indices.
+The model has a flag `syncBeforeDrop` (first argument of `Actor.run`) and a WAL `Format`:
+* `true` = the CURRENT code (after the `fix:` commit "WAL rotator fsyncs a writer before dropping
+  it; a lost writer fails the next sync()"): `rotate()` fsyncs the old writer before dropping it;
+  a failed closing fsync or a failed append poisons the next `sync()`.  `durable_survives` is
+  proved at full strength — all write sequences, batch choices, rotation thresholds, fault
+  oracles and crash indices, for either WAL format (the current one is `.v2`).
+  Also proved: `acks_exactly_once`, `rotation_keeps_sequence_monotone`.
+* `false` = the tree before that commit.  `DurableSurvives false` is FALSE:
+  `rotation_counterexample` (a batch that straddles a rotation) and
+  `append_error_counterexample` (an append error drops the writer, then `sync()` returned `Ok`
+  without syncing anything and the EARLIER entry of the batch was acked).  What did hold there:
+  `durable_survives_partial` under the decidable hypothesis `Actor.quiet` (no writer dropped
+  between two group fsyncs).  Kept as theorems about the same model functions.
 -/
 namespace RedisVerif
 namespace C09
@@ -34,36 +36,36 @@ open Wal
     (= write sequences with arbitrary batch boundaries) and crash instants `t` (number of I/O
     calls completed): every write that was acknowledged `Ok` when at most `t` calls had been
     issued is returned, bit-identical, by WAL recovery of the crash image at `t`. -/
-def DurableSurvives (syncBeforeDrop : Bool) (crc : Bytes → Nat) : Prop :=
-  ∀ (φ : Nat → Outcome) (maxSize : Nat) (evs : List Ev), (∀ w, Ev.write w ∈ evs → w.Ok crc) →
-    ∀ r ∈ (Actor.run syncBeforeDrop φ crc maxSize evs).acks, r.res = .ok →
-      ∀ t st, r.io ≤ t → (Actor.run syncBeforeDrop φ crc maxSize evs).rot.w.storeAt t = some st →
-        r.entry ∈ durable crc st
+def DurableSurvives (syncBeforeDrop : Bool) (fmt : Format) (crc : Bytes → Nat) : Prop :=
+  ∀ (φ : Nat → Outcome) (maxSize : Nat) (evs : List Ev), (∀ w, Ev.write w ∈ evs → w.Ok fmt crc) →
+    ∀ r ∈ (Actor.run syncBeforeDrop φ fmt crc maxSize evs).acks, r.res = .ok →
+      ∀ t st, r.io ≤ t → (Actor.run syncBeforeDrop φ fmt crc maxSize evs).rot.w.storeAt t = some st →
+        r.entry ∈ durable fmt crc st
 
 /-- what the invariant gives for any reachable actor state -/
-theorem survives_of_ainv {crc : Bytes → Nat} {a : Actor} (h : AInv crc a) :
+theorem survives_of_ainv {fmt : Format} {crc : Bytes → Nat} {a : Actor} (h : AInv fmt crc a) :
     ∀ r ∈ a.acks, r.res = .ok → ∀ t st, r.io ≤ t → a.rot.w.storeAt t = some st →
-      r.entry ∈ durable crc st :=
+      r.entry ∈ durable fmt crc st :=
   fun r hr hok t st hle hst => durable_of_dur (h.safe r hr hok t st hle hst)
 
 /-- the repaired code: a write reported durable survives a crash at any instant — every write
     sequence, every batching, every rotation threshold, every fault oracle, every crash index -/
-theorem durable_survives (crc : Bytes → Nat) : DurableSurvives true crc := by
+theorem durable_survives (fmt : Format) (crc : Bytes → Nat) : DurableSurvives true fmt crc := by
   intro φ maxSize evs hw
   exact survives_of_ainv
-    (ainv_foldl true φ evs (Actor.init maxSize) (inv_init crc maxSize) hw (Or.inl rfl))
+    (ainv_foldl true φ evs (Actor.init maxSize) (inv_init fmt crc maxSize) hw (Or.inl rfl))
 
 /-- the same for the schedule the real loop follows (bursts of writers, `group_commit_max_entries`) -/
-theorem durable_survives_groups (crc : Bytes → Nat) (φ : Nat → Outcome) (maxSize maxEntries : Nat)
-    (gs : List (List Write)) (hw : ∀ g ∈ gs, ∀ w ∈ g, w.Ok crc) :
-    ∀ r ∈ (Actor.runGroups true φ crc maxSize maxEntries gs).acks, r.res = .ok →
+theorem durable_survives_groups (fmt : Format) (crc : Bytes → Nat) (φ : Nat → Outcome) (maxSize maxEntries : Nat)
+    (gs : List (List Write)) (hw : ∀ g ∈ gs, ∀ w ∈ g, w.Ok fmt crc) :
+    ∀ r ∈ (Actor.runGroups true φ fmt crc maxSize maxEntries gs).acks, r.res = .ok →
       ∀ t st, r.io ≤ t →
-        (Actor.runGroups true φ crc maxSize maxEntries gs).rot.w.storeAt t = some st →
-        r.entry ∈ durable crc st := by
+        (Actor.runGroups true φ fmt crc maxSize maxEntries gs).rot.w.storeAt t = some st →
+        r.entry ∈ durable fmt crc st := by
   apply survives_of_ainv
   unfold Actor.runGroups
   generalize hinit : Actor.init maxSize = a0
-  have h0 : AInv crc a0 := by rw [← hinit]; exact inv_init crc maxSize
+  have h0 : AInv fmt crc a0 := by rw [← hinit]; exact inv_init fmt crc maxSize
   clear hinit
   induction gs generalizing a0 with
   | nil => exact h0
@@ -72,23 +74,68 @@ theorem durable_survives_groups (crc : Bytes → Nat) (φ : Nat → Outcome) (ma
     exact ih (fun g' hg' => hw g' (List.mem_cons_of_mem _ hg')) _
       (ainv_runGroup φ maxEntries g a0 h0 (hw g (by simp)))
 
--- non-vacuity: a fitting write; an acknowledged entry exists in a run with a rotation and a fault
-example : (⟨1, [1, 2, 3], 7⟩ : Write).Ok Driver.crc32 := by decide +kernel
+-- non-vacuity: a fitting write of the current format; on the current code the two workloads
+-- that broke the old rotator (see below) lose nothing that was acknowledged
+example : (⟨1, [1, 2, 3], 7⟩ : Write).Ok .v2 Driver.crc32 := by decide +kernel
 
-/-! ## the pinned code -/
+/-! ## every write is answered exactly once; file sequence numbers only grow -/
 
-/-- proved form for the pinned code: on every run on which no writer is dropped between two
+/-- once the mailbox has been drained (a final `flush`), nothing is left pending and the
+    multiset of answered ids is exactly the multiset of ids written: every `write_durable` call
+    gets exactly one ack — either code variant, every fault oracle, every batching -/
+theorem acks_exactly_once (fix : Bool) (fmt : Format) (φ : Nat → Outcome) (crc : Bytes → Nat)
+    (maxSize : Nat) (evs : List Ev) :
+    (Actor.run fix φ fmt crc maxSize (evs ++ [.flush])).pending = [] ∧
+    List.Perm ((Actor.run fix φ fmt crc maxSize (evs ++ [.flush])).acks.map (·.id))
+      (evs.flatMap Ev.ids) := by
+  have hlen := pending_len_foldl fix fmt φ crc evs (Actor.init maxSize) rfl
+  have hperm := ids_foldl_perm fix fmt φ crc (evs ++ [.flush]) (Actor.init maxSize)
+  unfold Actor.run at *
+  rw [List.foldl_append] at hperm ⊢
+  simp only [List.foldl_cons, List.foldl_nil] at hperm ⊢
+  generalize evs.foldl (Actor.step fix φ fmt crc) (Actor.init maxSize) = a at hlen hperm ⊢
+  have hp : (Actor.step fix φ fmt crc a .flush).pending = [] := by
+    simp only [Actor.step, Actor.flush]
+    split
+    · rename_i h0
+      exact List.length_eq_zero_iff.mp (by rw [hlen, h0])
+    · rfl
+  refine ⟨hp, ?_⟩
+  simp only [Actor.ids, hp, List.map_nil, List.append_nil, Actor.init, List.nil_append,
+    List.flatMap_append, List.flatMap_cons, List.flatMap_nil, Ev.ids] at hperm
+  exact hperm
+
+/-- `rotation_keeps_sequence_monotone`: along every run the `create` calls use strictly
+    increasing sequence numbers (trace is newest first), none above `current_sequence`, and
+    `current_sequence` never decreases — so recovery's sequence order is append order -/
+theorem rotation_keeps_sequence_monotone (fix : Bool) (fmt : Format) (φ : Nat → Outcome)
+    (crc : Bytes → Nat) (maxSize : Nat) (evs more : List Ev) :
+    (createSeqs (Actor.run fix φ fmt crc maxSize evs).rot.w.trace).Pairwise (· > ·) ∧
+    (∀ s ∈ createSeqs (Actor.run fix φ fmt crc maxSize evs).rot.w.trace,
+      s ≤ (Actor.run fix φ fmt crc maxSize evs).rot.seq) ∧
+    (Actor.run fix φ fmt crc maxSize evs).rot.seq
+      ≤ (Actor.run fix φ fmt crc maxSize (evs ++ more)).rot.seq := by
+  have h0 : RSeq (Actor.init maxSize).rot := ⟨List.Pairwise.nil, fun s hs => by cases hs⟩
+  obtain ⟨h1, _⟩ := rseq_foldl fix fmt φ crc evs (Actor.init maxSize) h0
+  refine ⟨h1.1, h1.2, ?_⟩
+  unfold Actor.run
+  rw [List.foldl_append]
+  exact (rseq_foldl fix fmt φ crc more _ h1).2
+
+/-! ## the code before the fix (`syncBeforeDrop = false`) -/
+
+/-- what held for the old rotator: on every run on which no writer is dropped between two
     group fsyncs (`Actor.quiet`, decidable: no rotation of a live writer and no append error since
     the previous fsync) acknowledged writes survive every crash — whatever the fsync faults,
     create faults, batching and crash index -/
-theorem durable_survives_partial (crc : Bytes → Nat) (φ : Nat → Outcome) (maxSize : Nat)
-    (evs : List Ev) (hw : ∀ w, Ev.write w ∈ evs → w.Ok crc)
-    (hq : Actor.quiet φ crc evs (Actor.init maxSize) = true) :
-    ∀ r ∈ (Actor.run false φ crc maxSize evs).acks, r.res = .ok →
-      ∀ t st, r.io ≤ t → (Actor.run false φ crc maxSize evs).rot.w.storeAt t = some st →
-        r.entry ∈ durable crc st :=
+theorem durable_survives_partial (fmt : Format) (crc : Bytes → Nat) (φ : Nat → Outcome) (maxSize : Nat)
+    (evs : List Ev) (hw : ∀ w, Ev.write w ∈ evs → w.Ok fmt crc)
+    (hq : Actor.quiet φ fmt crc evs (Actor.init maxSize) = true) :
+    ∀ r ∈ (Actor.run false φ fmt crc maxSize evs).acks, r.res = .ok →
+      ∀ t st, r.io ≤ t → (Actor.run false φ fmt crc maxSize evs).rot.w.storeAt t = some st →
+        r.entry ∈ durable fmt crc st :=
   survives_of_ainv
-    (ainv_foldl false φ evs (Actor.init maxSize) (inv_init crc maxSize) hw (Or.inr hq))
+    (ainv_foldl false φ evs (Actor.init maxSize) (inv_init fmt crc maxSize) hw (Or.inr hq))
 
 def w1 : Write := ⟨1, [1], 1⟩
 def w2 : Write := ⟨2, [2], 2⟩
@@ -98,25 +145,25 @@ def w3 : Write := ⟨3, [3], 3⟩
 def quietFaults : Nat → Outcome := fun i => if i = 3 then .fail else .ok
 
 -- non-vacuity of `quiet`: one file, two batches, an fsync fault in between
-example : Actor.quiet quietFaults Driver.crc32 [.write w1, .flush, .write w2, .write w3, .flush]
+example : Actor.quiet quietFaults .v1 Driver.crc32 [.write w1, .flush, .write w2, .write w3, .flush]
     (Actor.init 1000) = true := by decide +kernel
 
-example : ((Actor.run false quietFaults Driver.crc32 1000
+example : ((Actor.run false quietFaults .v1 Driver.crc32 1000
     [.write w1, .flush, .write w2, .write w3, .flush]).acks.map (fun r => (r.id, r.res)))
     = [(3, .ok), (2, .ok), (1, .err .fsync)] := by decide +kernel
 
-theorem w123_ok : w1.Ok Driver.crc32 ∧ w2.Ok Driver.crc32 ∧ w3.Ok Driver.crc32 := by decide +kernel
+theorem w123_ok : w1.Ok .v1 Driver.crc32 ∧ w2.Ok .v1 Driver.crc32 ∧ w3.Ok .v1 Driver.crc32 := by decide +kernel
 
 /-- one entry per file (threshold 17), three writers in one batch, no fault at all: the single
     fsync covers only file 3 -/
 def rotationRun : Actor :=
-  Actor.run false (fun _ => .ok) Driver.crc32 17 [.write w1, .write w2, .write w3, .flush]
+  Actor.run false (fun _ => .ok) .v1 Driver.crc32 17 [.write w1, .write w2, .write w3, .flush]
 
-/-- the pinned code violates the property: all three writes are acknowledged `Ok` after the
+/-- the old rotator violated the property: all three writes are acknowledged `Ok` after the
     10th I/O call, and recovery of the crash image at that instant returns only the third -/
-theorem rotation_counterexample : ¬ DurableSurvives false Driver.crc32 := by
+theorem rotation_counterexample : ¬ DurableSurvives false .v1 Driver.crc32 := by
   intro h
-  have hmem : (⟨1, Entry.mk' Driver.crc32 [1] 1, .ok, 10⟩ : AckRec) ∈ rotationRun.acks := by
+  have hmem : (⟨1, Entry.mk' .v1 Driver.crc32 [1] 1, .ok, 10⟩ : AckRec) ∈ rotationRun.acks := by
     decide +kernel
   have hst : rotationRun.rot.w.storeAt 10 = some rotationRun.rot.w.store := by decide +kernel
   have := h (fun _ => .ok) 17 [.write w1, .write w2, .write w3, .flush]
@@ -132,18 +179,18 @@ theorem rotation_counterexample : ¬ DurableSurvives false Driver.crc32 := by
 
 /-- what recovery returns at that crash instant -/
 theorem rotation_counterexample_recovers :
-    (durable Driver.crc32 rotationRun.rot.w.store).map (·.ts) = [3] := by decide +kernel
+    (durable .v1 Driver.crc32 rotationRun.rot.w.store).map (·.ts) = [3] := by decide +kernel
 
 /-- one file; the append of the second entry of the batch fails (I/O call 3) -/
 def appendErrorRun : Actor :=
-  Actor.run false (fun i => if i = 3 then .fail else .ok) Driver.crc32 1000
+  Actor.run false (fun i => if i = 3 then .fail else .ok) .v1 Driver.crc32 1000
     [.write w1, .write w2, .flush]
 
 /-- … the writer is dropped, `sync()` returns `Ok` without issuing any call, write 1 is
     acknowledged `Ok` and is lost by a crash -/
-theorem append_error_counterexample : ¬ DurableSurvives false Driver.crc32 := by
+theorem append_error_counterexample : ¬ DurableSurvives false .v1 Driver.crc32 := by
   intro h
-  have hmem : (⟨1, Entry.mk' Driver.crc32 [1] 1, .ok, 4⟩ : AckRec) ∈ appendErrorRun.acks := by
+  have hmem : (⟨1, Entry.mk' .v1 Driver.crc32 [1] 1, .ok, 4⟩ : AckRec) ∈ appendErrorRun.acks := by
     decide +kernel
   have hst : appendErrorRun.rot.w.storeAt 4 = some appendErrorRun.rot.w.store := by decide +kernel
   have := h (fun i => if i = 3 then .fail else .ok) 1000 [.write w1, .write w2, .flush]
@@ -159,10 +206,10 @@ theorem append_error_counterexample : ¬ DurableSurvives false Driver.crc32 := b
 /-- the same two workloads on the repaired code: nothing acknowledged is lost (instances of
     `durable_survives`, evaluated) -/
 theorem repaired_on_witnesses :
-    (durable Driver.crc32
-        (Actor.run true (fun _ => .ok) Driver.crc32 17
+    (durable .v2 Driver.crc32
+        (Actor.run true (fun _ => .ok) .v2 Driver.crc32 17
           [.write w1, .write w2, .write w3, .flush]).rot.w.store).map (·.ts) = [1, 2, 3] ∧
-    ((Actor.run true (fun i => if i = 3 then .fail else .ok) Driver.crc32 1000
+    ((Actor.run true (fun i => if i = 3 then .fail else .ok) .v2 Driver.crc32 1000
         [.write w1, .write w2, .flush]).acks.map (fun r => (r.id, r.res)))
       = [(1, .err .fsync), (2, .err .io)] := by decide +kernel
 
